@@ -16,10 +16,13 @@
 //       ESC ] M R <consumed> ; <hex of the returned String> BEL
 // (O = Prompt constructed, C = Prompt destroyed + "terminal mode restored?").  The markers never reach the screen model.
 //
-// Ops:   open <width> <startcol> <querywidth> <utf8>   create pty (window width as given; querywidth=1: TIOCGWINSZ
+// Ops:   open <width> <startcol> <querywidth> <utf8> [<bottom>]
+//                                                     create pty (window width as given; querywidth=1: TIOCGWINSZ
 //                                                     reports 0 columns, the prompt must ask the terminal), put
-//                                                     <startcol> characters of earlier output on the cursor row,
-//                                                     fork the application, construct the Prompt
+//                                                     <startcol> characters of earlier output on the cursor row
+//                                                     (bottom=1: that is the last row of the screen, which then
+//                                                     scrolls), fork the application (LANG=C.UTF-8 / C), construct
+//                                                     the Prompt
 //        line x<prompt>                               the application calls getLine(prompt)
 //        key x<bytes> | junk x<bytes>                 the terminal sends the bytes (one write); junk = same, but the
 //                                                     screen emulator stops being strict until the next reset
@@ -27,7 +30,8 @@
 //                                                     not judged and may contain anything)
 //        finish                                       the terminal sends enter until getLine returns (at most 6 times)
 //        close                                        the application destroys the Prompt and exits (leak check);
-//                                                     if getLine is still running the application is killed ("abandon")
+//                                                     line / close while getLine is still running: the application is
+//                                                     killed and the rest of the execution skipped ("abandon")
 // Every event logs the screen AFTER the prompt went back to sleep (or returned):
 //   text = the cells from the prompt's first row on, rows joined, trailing blanks stripped (code points)
 //   cur  = cursor as a linear index from the prompt's first cell;  pre = 1 iff everything above the prompt's row is intact
@@ -167,14 +171,17 @@ static void child_main(int slave, int cmdfd, int utf8)
 }
 
 // ------------------------------------------------------------------------------------------------- terminal side
-enum { ROWS = 64, MAXW = 64, ROW0 = 2, MAXTEXT = ROWS * MAXW };
+enum { ROWS = 96, MAXW = 64 };
+static int ROW0 = 2, U8 = 1;         // the cursor row when the application starts; UTF-8 locale?
 static int master = -1, cmdw = -1;
 static pid_t child = 0;
 static long g_written = 0;
 static int W = 0, SC = 0, R0 = 0;
 static int grid[ROWS][MAXW];
 static int crow, ccol, autowrap, pendwrap, lenient;
+static int scrolled;              // rows that left the screen at the top
 static int in_line = 0;
+static int abandoned = 0;             // getLine did not return when the generator expected it: the rest of the execution is skipped
 static long g_reset_line = 0;         // "ln" of an event = index of its op within the execution
 // event of the pump
 static char ev_type;
@@ -209,21 +216,27 @@ static void child_gone()
   exit(100 + WTERMSIG(st));
 }
 
-static void emu_reset(int w, int sc)
+static void emu_reset(int w, int sc, int bottom)
 {
-  W = w; SC = sc;
+  W = w; SC = sc; ROW0 = bottom ? ROWS - 1 : 2;
   for(int r = 0; r < ROWS; ++r) for(int c = 0; c < MAXW; ++c) grid[r][c] = 32;
   for(int c = 0; c < sc; ++c) grid[ROW0][c] = 'x';
-  crow = ROW0; ccol = sc; autowrap = 1; pendwrap = 0; lenient = 0;
+  crow = ROW0; ccol = sc; autowrap = 1; pendwrap = 0; lenient = 0; scrolled = 0;
   R0 = ROW0 + (sc > 0 ? 1 : 0);
+}
+static void emu_linefeed()
+{
+  if(crow + 1 < ROWS) { ++crow; return; }
+  memmove(grid[0], grid[1], sizeof(grid[0]) * (ROWS - 1));       // bottom row: the screen scrolls
+  for(int c = 0; c < MAXW; ++c) grid[ROWS - 1][c] = 32;
+  ++scrolled;
 }
 static void emu_put(int cp)
 {
   if(pendwrap && autowrap)
   {
     ccol = 0;
-    if(crow + 1 >= ROWS) { if(!lenient) drv_error("emulated screen too short (scrolling is not modelled)", crow); }
-    else ++crow;
+    emu_linefeed();
   }
   pendwrap = 0;
   grid[crow][ccol] = cp;
@@ -324,17 +337,12 @@ static void emu_byte(int b)
   }
   if(b == 0x1b) { est = 1; return; }
   if(b == '\r') { ccol = 0; pendwrap = 0; return; }
-  if(b == '\n')
-  {
-    pendwrap = 0;
-    if(crow + 1 >= ROWS) { if(!lenient) drv_error("emulated screen too short (scrolling is not modelled)", crow); }
-    else ++crow;
-    return;
-  }
-  if(b < 0x20 || b == 0x7f)
+  if(b == '\n') { pendwrap = 0; emu_linefeed(); return; }
+  if(b == 0 || b == 7 || b == 0x7f) return;                 // NUL, BEL, DEL: no effect on a VT100 screen
+  if(b == 8) { if(ccol > 0) --ccol; pendwrap = 0; return; }
+  if(b < 0x20)
   {
     if(!lenient) drv_error("control character not modelled by the screen emulator", b);
-    if(b == 8 && ccol > 0) { --ccol; pendwrap = 0; }
     return;
   }
   if(b < 0x80) { emu_put(b); return; }
@@ -371,19 +379,20 @@ static void log_obs(const char* op, const unsigned char* k, int nk, const unsign
 {
   j_begin(op);
   j_int("ln", g_lineno - g_reset_line);
-  j_int("w", W); j_int("sc", SC);
+  j_int("w", W); j_int("sc", SC); j_int("u8", U8);
   j_bytes("k", k, nk);
   j_bytes("prompt", prompt, np);
   j_int("st", st);
-  // screen
+  // screen (r0: where the prompt's first row is now; rows that scrolled off the top are lost)
+  int r0 = R0 - scrolled, pre = 1;
+  if(r0 < 0) { r0 = 0; pre = 0; }
   int last = -1;
-  for(int r = R0; r < ROWS; ++r) for(int c = 0; c < W; ++c) if(grid[r][c] != 32) last = (r - R0) * W + c;
+  for(int r = r0; r < ROWS; ++r) for(int c = 0; c < W; ++c) if(grid[r][c] != 32) last = (r - r0) * W + c;
   j_arr_begin("text");
-  for(int i = 0; i <= last; ++i) j_arr_int(grid[R0 + i / W][i % W]);
+  for(int i = 0; i <= last; ++i) j_arr_int(grid[r0 + i / W][i % W]);
   j_arr_end();
-  j_int("cur", (crow - R0) * W + ccol);
-  int pre = 1;
-  for(int r = 0; r < R0; ++r) for(int c = 0; c < MAXW; ++c) if(grid[r][c] != ((r == ROW0 && c < SC) ? 'x' : 32)) pre = 0;
+  j_int("cur", (crow - r0) * W + ccol);
+  for(int r = 0; r < r0; ++r) for(int c = 0; c < MAXW; ++c) if(grid[r][c] != ((r + scrolled == ROW0 && c < SC) ? 'x' : 32)) pre = 0;
   for(int r = 0; r < ROWS; ++r) for(int c = W; c < MAXW; ++c) if(grid[r][c] != 32) pre = 0;
   j_int("pre", pre);
   // returned line
@@ -407,8 +416,8 @@ static void send_cmd(const char* s)
   }
 }
 
-void drv_init(int, char**) { signal(SIGPIPE, SIG_IGN); }
-void drv_reset() { kill_child(); g_reset_line = g_lineno; }
+void drv_init(int, char**) { signal(SIGPIPE, SIG_IGN); g_op_timeout = 8; }      // one op is a few system calls: 8 s is a hang
+void drv_reset() { kill_child(); g_reset_line = g_lineno; abandoned = 0; }
 void drv_fini() { kill_child(); }
 
 void drv_apply(const char* op)
@@ -416,9 +425,11 @@ void drv_apply(const char* op)
   if(strcmp(op, "open") == 0)
   {
     int w = (int)tok_int(), sc = (int)tok_int(), q = (int)tok_int(), utf8 = (int)tok_int();
+    int bottom = tok_more() ? (int)tok_int() : 0;
+    U8 = utf8;
     if(child) drv_error("open while a prompt exists", 0);
     if(w < 2 || w > MAXW || sc < 0 || sc >= w) drv_error("bad width / start column", w);
-    emu_reset(w, sc);
+    emu_reset(w, sc, bottom);
     struct winsize ws;
     memset(&ws, 0, sizeof(ws));
     ws.ws_row = ROWS; ws.ws_col = q ? 0 : w;
@@ -442,17 +453,33 @@ void drv_apply(const char* op)
     fcntl(master, F_SETFD, FD_CLOEXEC);
     est = 0;
     char t = pump();
+    if(t == 'I')
+    {
+      // the constructor has consumed every byte the terminal sent (all its queries were answered) and sleeps waiting for more
+      fflush(g_out);
+      fprintf(stderr, "DRIVER-HANG: the Prompt constructor waits for terminal input that is not coming (op line %ld)\n", g_lineno);
+      kill_child();
+      exit(97);
+    }
     if(t != 'O') drv_error("unexpected marker while constructing the prompt", t);
-    j_begin("open"); j_int("ln", g_lineno - g_reset_line); j_int("w", w); j_int("sc", sc); j_bytes("k", 0, 0); j_bytes("prompt", 0, 0); j_int("st", 0);
-    j_bytes("text", 0, 0); j_int("cur", (crow - R0) * W + ccol); j_int("pre", 1); j_bytes("ret", 0, 0); j_int("left", 0);
+    j_begin("open"); j_int("ln", g_lineno - g_reset_line); j_int("w", w); j_int("sc", sc); j_int("u8", U8); j_bytes("k", 0, 0); j_bytes("prompt", 0, 0); j_int("st", 0);
+    j_bytes("text", 0, 0); j_int("cur", (crow - (R0 - scrolled)) * W + ccol); j_int("pre", 1); j_bytes("ret", 0, 0); j_int("left", 0);
     j_int("modeok", 1); j_end();
     return;
   }
+  if(abandoned) return;
   if(!child) drv_error("no prompt (open first)", 0);
+  if(in_line && (strcmp(op, "line") == 0 || strcmp(op, "close") == 0))
+  {
+    // getLine never returned (judged by the trace specification where it must): the application is abandoned
+    kill_child();
+    abandoned = 1;
+    j_begin("abandon"); j_int("ln", g_lineno - g_reset_line); j_end();
+    return;
+  }
   if(strcmp(op, "line") == 0)
   {
     int np; unsigned char* pr = tok_bytes(&np, 0);
-    if(in_line) drv_error("line while getLine is running", 0);
     static char cmd[1 << 13];
     int n = snprintf(cmd, sizeof(cmd), "L ");
     for(int i = 0; i < np; ++i) n += snprintf(cmd + n, sizeof(cmd) - n, "%02x", pr[i]);
@@ -495,13 +522,6 @@ void drv_apply(const char* op)
   }
   if(strcmp(op, "close") == 0)
   {
-    if(in_line)
-    {
-      // getLine never returned (judged by the trace specification where it must): the application is abandoned
-      kill_child();
-      j_begin("abandon"); j_int("ln", g_lineno - g_reset_line); j_end();
-      return;
-    }
     send_cmd("C\n");
     char t = pump();
     if(t != 'C') drv_error("unexpected marker in close", t);
